@@ -116,4 +116,7 @@ theorem gen_identity_applied : Gen.handleCallAppliesIdentity = true := by decide
 /-- regenerated from the source on every run: the connection loop builds the authentication context inside its request loop, from that call's credential -/
 theorem gen_conn_loop_identity_per_call : Gen.connLoopAuthPerCall = true := by decide
 
+/-- the mode the identities are squashed under cannot be changed or dropped by a runtime policy update -/
+theorem gen_squash_immutable : Gen.updatePolicyRejectsAnySquashChange = true := by decide
+
 end Props.C10
